@@ -326,14 +326,41 @@ Fixpoint drain_steps (n : nat) (c : cursor) (acc : list N) : MV (list N * cursor
 Definition dbg_range (alt : bool) (c : cursor) : MV (list N) :=
   fun w => Ok (r_str (debug_pairs dk dv alt (range_list (self w) c))) w.
 
-(* [with_dbg]: Drain implements Debug, SetDrain does not *)
-Definition drain_session (with_dbg : bool) (take : nat) (fate : N) : MV (list N) :=
+(* the rest of a Drain consumed by for_each(closure): default fold = repeated
+   next(); a panicking closure unwinds through the Drain, whose destructor
+   drops what is left *)
+Definition call_or_drain (cl : cstate -> ans * cstate) (c : cursor) : MV unit :=
+  fun w => match (emit [EvCall 4] ;; cbk cl) w with
+           | Ok _ w' => Ok tt w'
+           | Panic w' => match drain_drop E c w' with
+                         | UB => UB
+                         | Ok _ w'' => Panic w''
+                         | Panic w'' => Panic w''
+                         end
+           | UB => UB
+           end.
+Fixpoint drain_for_each (cl : cstate -> ans * cstate) (fuel : nat) (c : cursor) (cnt : nat) : MV nat :=
+  match fuel with
+  | 0 => ret cnt
+  | S f =>
+      '(o, c') <- drain_next c ;;
+      match o with
+      | None => ret cnt
+      | Some _ => call_or_drain cl c' ;; drain_for_each cl f c' (S cnt)
+      end
+  end.
+
+(* [with_dbg]: Drain implements Debug, SetDrain does not.
+   fate: 0 = dropped | 1 = forgotten | 2 = rest consumed by for_each(closure) *)
+Definition drain_session (with_dbg : bool) (cl : cstate -> ans * cstate) (take : nat) (fate : N) : MV (list N) :=
   c <- drain ;;
   '(acc, c') <- drain_steps take c [] ;;
   d0 <- (if with_dbg then dbg_range false c' else ret []) ;;
   d1 <- (if with_dbg then dbg_range true c' else ret []) ;;
-  (if N.eqb fate 0 then drain_drop E c' else ret tt) ;;
-  ret (acc ++ [nn (cursor_len c')] ++ d0 ++ d1).
+  tail <- (if N.eqb fate 0 then (drain_drop E c' ;; ret [])
+           else if N.eqb fate 2 then (n <- drain_for_each cl (S (cursor_len c')) c' 0 ;; ret [nn n])
+           else ret []) ;;
+  ret (acc ++ [nn (cursor_len c')] ++ d0 ++ d1 ++ tail).
 End DrainSession.
 
 (* --- borrowing iterator sessions on a Map register --- *)
@@ -409,13 +436,28 @@ Definition dbg_into (kind : N) (alt : bool) : Mm (list N) :=
                else if N.eqb kind 2 then debug_values dbg_val alt (List.map snd l)
                else debug_pairs dbg_key dbg_val alt l)) w.
 
+(* the rest of a consuming iterator consumed by for_each(closure) *)
+Fixpoint into_for_each (kind : N) (fuel cnt : nat) : Mm nat :=
+  match fuel with
+  | 0 => ret cnt
+  | S f =>
+      o <- into_iter_next ;;
+      match o with
+      | None => ret cnt
+      | Some p => _ <- into_steps_item kind p ;; emit [EvCall 4] ;; _ <- cbk (nx_cb sc) ;;
+                  into_for_each kind f (S cnt)
+      end
+  end.
+
 Definition into_session (kind : N) (take : nat) (fate : N) : Mm (list N) :=
   acc <- into_steps kind take [] ;;
   d0 <- dbg_into kind false ;;
   d1 <- dbg_into kind true ;;
   l <- get_len ;;
-  (if N.eqb fate 0 then drop_map Em else ret tt) ;;
-  ret (acc ++ d0 ++ d1 ++ [nn l]).
+  tail <- (if N.eqb fate 0 then (drop_map Em ;; ret [])
+           else if N.eqb fate 2 then (n <- finally_drop Em (into_for_each kind (S l) 0) ;; ret [nn n])
+           else ret []) ;;
+  ret (acc ++ d0 ++ d1 ++ [nn l] ++ tail).
 
 (* --- entry chains --- *)
 Definition r_slotval (tag : N) (i : nat) : Mm (list N) :=
@@ -658,6 +700,17 @@ Fixpoint set_into_steps (n : nat) (acc : list N) : Ms (list N) :=
       end
   end.
 
+Fixpoint set_into_for_each (fuel cnt : nat) : Ms nat :=
+  match fuel with
+  | 0 => ret cnt
+  | S f =>
+      o <- into_iter_next ;;
+      match o with
+      | None => ret cnt
+      | Some _ => emit [EvCall 4] ;; _ <- cbk (nx_cb sc) ;; set_into_for_each f (S cnt)
+      end
+  end.
+
 Definition q_ok (r : N) := N.ltb r 2.
 Definition s_ok (r : N) := N.leb 2 r && N.ltb r 4.
 
@@ -683,7 +736,7 @@ Definition step (o : op) (x : xworld) : list N * xworld :=
   | ORemoveEntry r q => run_m r (o <- remove_entry Em debug q ;; ret (r_optp o)) x
   | ORetain r dflt tab => run_m r (retain Em debug (pred_m sc dflt tab) ;; ret []) x
   | OClear r => run_m r (clear Em ;; ret []) x
-  | ODrain r take fate => run_m r (drain_session Em r_pair dbg_key dbg_val true take fate) x
+  | ODrain r take fate => run_m r (drain_session Em r_pair dbg_key dbg_val true (nx_cb sc) take fate) x
   | OWithCapacity r c =>
       run_m r (n <- get_cap ;;
                if with_capacity_ok c n then replace_with Em (ret tt) [] else panic) x
@@ -714,15 +767,17 @@ Definition step (o : op) (x : xworld) : list N * xworld :=
   | SRetain r dflt tab => run_s r (s_retain Es debug (pred_s sc dflt tab) ;; ret []) x
   | SClear r => run_s r (s_clear Es ;; ret []) x
   | SDrain r take fate =>
-      run_s r (drain_session Es r_spair dbg_key (fun _ => [40%N; 41%N]) false take fate) x
+      run_s r (drain_session Es r_spair dbg_key (fun _ => [40%N; 41%N]) false (nx_cb sc) take fate) x
   | SExtend r items => run_s r (s_extend Es debug (nx_cb sc) items ;; ret []) x
   | SIter r steps => run_s r (set_iter_session steps) x
   | SIntoIter r take fate =>
       run_s r (c <- get_cap ;; old <- get_self ;; put_self (new_map c) ;;
                '(body, _) <- swap_self old
                   (acc <- set_into_steps take [] ;; l <- get_len ;;
-                   (if N.eqb fate 0 then drop_map Es else ret tt) ;;
-                   ret (acc ++ [nn l])) ;;
+                   tail <- (if N.eqb fate 0 then (drop_map Es ;; ret [])
+                            else if N.eqb fate 2 then (n <- finally_drop Es (set_into_for_each (S l) 0) ;; ret [nn n])
+                            else ret []) ;;
+                   ret (acc ++ [nn l] ++ tail)) ;;
                ret body) x
   | SClone r r' =>
       if Nat.eqb (cap (get_s r x)) (cap (get_s r' x)) then
